@@ -49,6 +49,9 @@ func (cf ckksConf) String() string { return cf.name }
 func ckksConfigs(tier string) []ckksConf {
 	var r []ckksConf
 	logNs := []int{4, 5, 6}
+	if tier == "thorough" {
+		logNs = append(logNs, 7) // n = 64 / 128 slots: the reference embedding is O(n^2) big.Float products
+	}
 	for _, logN := range logNs {
 		for _, rt := range []ring.Type{ring.Standard, ring.ConjugateInvariant} {
 			rn := map[ring.Type]string{ring.Standard: "std", ring.ConjugateInvariant: "ci"}[rt]
@@ -999,11 +1002,11 @@ func ckksScenarios(tier string) []engine.Scenario {
 	var scs []engine.Scenario
 	for _, cf := range ckksConfigs(tier) {
 		switch {
-		case tier == "thorough" || cf.logN <= fullProductLogN:
+		case (tier == "thorough" && cf.logN <= 6) || cf.logN <= fullProductLogN:
 			for si := 0; si < 5; si++ {
 				scs = append(scs, ckksShapeScenario(cf, 2, si))
 			}
-		case cf.logN == fullProductLogN+1:
+		case cf.logN == fullProductLogN+1 || tier == "thorough":
 			scs = append(scs, ckksShapeScenario(cf, 1, 0))
 		default:
 			scs = append(scs, ckksShapeScenario(cf, 0, 0))
